@@ -165,3 +165,48 @@ theorem AUnit.grant_get_head {s s' : KState ℚ σ} (h : AUnit s s') {r : ResId}
   cases pre with
   | nil => exact ⟨v, rest, hq, hg, hs⟩
   | cons p ps => exact absurd (hp p List.mem_cons_self).1 hf
+
+/-! ## the moment of a grant, inside a run -/
+
+theorem UnitSeq.base {s s' : KState ℚ σ} (h : UnitSeq s s') : Base s s' := by
+  induction h with
+  | refl => exact Base.refl _
+  | snoc _ hu ih => exact ih.trans hu.base
+
+/-- **Every granted put was, at the moment of its grant, the head of its queue**: if `e` is a waiting put of `r` in `s`
+and granted in `s'`, the unit sequence from `s` to `s'` passes through a state `t` in which `e` heads the queue and
+`_do_put`'s guard holds, and continues from `grantPutSt t r e`. -/
+theorem UnitSeq.grant_put_moment {s s' : KState ℚ σ} (h : UnitSeq s s') {r : ResId} {e : EvId}
+    (hk : (s.ev e).kind = .put r) (ho : (s.ev e).out = none) (ho' : (s'.ev e).out ≠ none) :
+    ∃ t rest, UnitSeq s t ∧ UnitSeq (grantPutSt t r e) s' ∧ (t.res r).putQ = e :: rest ∧ canPut t r e = true ∧
+      (t.ev e).out = none := by
+  induction h with
+  | refl => exact absurd ho ho'
+  | @snoc s1 s2 h1 hu ih =>
+    by_cases hmid : (s1.ev e).out = none
+    · have hk1 : (s1.ev e).kind = .put r := by rw [h1.base.kind e (lt_size_of_put hk)]; exact hk
+      obtain ⟨rest, hq, hc, hs2⟩ := hu.grant_put hk1 hmid ho'
+      exact ⟨s1, rest, h1, by rw [hs2]; exact UnitSeq.refl _, hq, hc, hmid⟩
+    · obtain ⟨t, rest, ht, ht', hq, hc, hto⟩ := ih hmid
+      exact ⟨t, rest, ht, UnitSeq.snoc ht' hu, hq, hc, hto⟩
+
+/-- **Every granted get was granted in its turn**: at the moment of its grant it could be served, and every queue
+member in front of it belonged to a `FilterStore` and matched no item. -/
+theorem UnitSeq.grant_get_moment {s s' : KState ℚ σ} (h : UnitSeq s s') {r : ResId} {e : EvId}
+    (hk : (s.ev e).kind = .get r) (ho : (s.ev e).out = none) (ho' : (s'.ev e).out ≠ none) :
+    ∃ t v pre rest, UnitSeq s t ∧ UnitSeq (grantGetSt t r e v) s' ∧ (t.res r).getQ = pre ++ e :: rest ∧
+      getItem t r e = some v ∧ (∀ a ∈ pre, (t.res r).kind = .fstore ∧ getItem t r a = none) ∧ (t.ev e).out = none ∧
+      (s'.ev e).out = some (.ok v) := by
+  induction h with
+  | refl => exact absurd ho ho'
+  | @snoc s1 s2 h1 hu ih =>
+    by_cases hmid : (s1.ev e).out = none
+    · have hk1 : (s1.ev e).kind = .get r := by rw [h1.base.kind e (lt_size_of_get hk)]; exact hk
+      obtain ⟨v, pre, rest, hq, hg, hp, hs2⟩ := hu.grant_get hk1 hmid ho'
+      have hWt : WF s1 := by cases hu <;> assumption
+      refine ⟨s1, v, pre, rest, h1, by rw [hs2]; exact UnitSeq.refl _, hq, hg, hp, hmid, ?_⟩
+      rw [hs2]; exact (Base.getEffect_of_guard hWt hq hg).outE
+    · obtain ⟨t, v, pre, rest, ht, ht', hq, hg, hp, hto, hout⟩ := ih hmid
+      refine ⟨t, v, pre, rest, ht, UnitSeq.snoc ht' hu, hq, hg, hp, hto, ?_⟩
+      have hk1 : (s1.ev e).kind = .get r := by rw [h1.base.kind e (lt_size_of_get hk)]; exact hk
+      rw [hu.base.outStable e (isReq_of_get hk1) hmid]; exact hout
